@@ -151,10 +151,19 @@ func (r *Result) Diagnostic() (string, bool) {
 
 // Run executes a plugin binary on a request.
 func Run(plugin string, env []string, target *descriptorpb.FileDescriptorProto, deps []*descriptorpb.FileDescriptorProto, param string) (*Result, error) {
+	return RunMulti(plugin, env, []*descriptorpb.FileDescriptorProto{target}, deps, param)
+}
+
+// RunMulti executes a plugin binary on one request that asks for several files.
+func RunMulti(plugin string, env []string, targets []*descriptorpb.FileDescriptorProto, deps []*descriptorpb.FileDescriptorProto, param string) (*Result, error) {
+	var names []string
+	for _, t := range targets {
+		names = append(names, t.GetName())
+	}
 	req := &pluginpb.CodeGeneratorRequest{
-		FileToGenerate:  []string{target.GetName()},
+		FileToGenerate:  names,
 		Parameter:       proto.String(param),
-		ProtoFile:       append(append([]*descriptorpb.FileDescriptorProto{}, deps...), target),
+		ProtoFile:       append(append([]*descriptorpb.FileDescriptorProto{}, deps...), targets...),
 		CompilerVersion: &pluginpb.Version{Major: proto.Int32(4), Minor: proto.Int32(24), Patch: proto.Int32(4)},
 	}
 	in, err := proto.Marshal(req)
